@@ -172,3 +172,9 @@ PARTS = [
     Part(name="marker_kinematics", strategy=_strategy, body=_body, variants=_variants,
          examples={"quick": 1100, "thorough": 22000}, shards={"quick": 11, "thorough": 11}),
 ]
+
+# the same generator and oracle driven by libFuzzer with branch coverage of the forcing-grid classes as feedback
+from ..fuzz import make_fuzz_part  # noqa: E402
+
+PARTS.append(make_fuzz_part("coverage_guided_marker_kinematics", PARTS[0], instrument=["sopht.simulator.immersed_body"],
+                            runs={"quick": 400, "thorough": 40000}, max_time={"quick": 25, "thorough": 900}))
